@@ -87,7 +87,18 @@ def lam_min_of(name, trace):
 
 
 def diverging(name, trace):
-    """a Bingham concentration beyond 1e6: the class has collapsed onto (numerically) rank-deficient scatter"""
+    """a Bingham concentration beyond 1e6, or a full Gaussian class covariance with reciprocal condition number below 1e-10:
+    the class has collapsed onto (numerically) rank-deficient scatter, and whether sklearn's Cholesky factorisation still
+    succeeds (or refuses with its explicit 'ill-defined empirical covariance') is decided by rounding"""
+    if name in ('gmm', 'gcacgmm'):
+        worst = 1.0
+        for r in trace:
+            g = r['model'].gaussian
+            cov = np.asarray(g.covariance)
+            if cov.ndim == np.asarray(g.mean).ndim + 1:          # full covariance
+                ev = np.linalg.eigvalsh(cov)
+                worst = min(worst, float((ev[..., 0] / np.maximum(ev[..., -1], 1e-300)).min()))
+        return worst < 1e-10
     if name != 'cbmm':
         return False
     return max(float(np.abs(r['model'].complex_bingham.covariance_eigenvalues).max()) for r in trace) > 1e6
